@@ -17,16 +17,16 @@ import (
 
 // Asset is one VoD asset with the ground truth of the representations the drivers use.
 type Asset struct {
-	Name   string // asset path under the VoD root
-	MPD    string
-	LoopMS int64
-	Video  *project.RepTruth
-	Audio  *project.RepTruth
-	Text   *project.RepTruth // stpp text profile (bundled testpic_2s only)
-	Texts  []*project.RepTruth // all stpp representations (text and image profile)
+	Name    string // asset path under the VoD root
+	MPD     string
+	LoopMS  int64
+	Video   *project.RepTruth
+	Audio   *project.RepTruth
+	Text    *project.RepTruth   // stpp text profile (bundled testpic_2s only)
+	Texts   []*project.RepTruth // all stpp representations (text and image profile)
 	TextMPD string
-	Thumbs *ThumbTruth
-	Gen    bool
+	Thumbs  *ThumbTruth
+	Gen     bool
 }
 
 type ThumbTruth struct {
@@ -190,12 +190,15 @@ func Setup(dir string, thorough bool) (*Env, error) {
 // Cfg is the URL configuration of a scenario.
 type Cfg struct {
 	Mode  string // "number" | "time" | "tlnr"
-	SNR   int    // -1 = not given (default 0)
+	SNR   int    // -1 = not given (default 0); SNRImplicit = snr_-1 (no startNumber in the MPD: the DASH default 1)
 	AST   int64  // start_<AST>; 0 = not given
 	TSBD  int    // -1 = not given (default 60)
 	AtoMS int64  // 0 none; -1 infinite
 	Extra []string
 }
+
+// SNRImplicit is the value of Cfg.SNR for the URL option snr_-1.
+const SNRImplicit = -2
 
 func (c Cfg) Parts() []string {
 	var p []string
@@ -207,6 +210,8 @@ func (c Cfg) Parts() []string {
 	}
 	if c.SNR >= 0 {
 		p = append(p, fmt.Sprintf("snr_%d", c.SNR))
+	} else if c.SNR == SNRImplicit {
+		p = append(p, "snr_-1")
 	}
 	switch {
 	case c.AtoMS < 0:
@@ -230,6 +235,9 @@ func fmtMS(ms int64) string {
 }
 
 func (c Cfg) EffSNR() int64 {
+	if c.SNR == SNRImplicit {
+		return 1
+	}
 	if c.SNR < 0 {
 		return 0
 	}
